@@ -36,6 +36,8 @@ def jobs(tier, seed):
         out.append(('si4-call-site.chan-desc.len=%d' % L, 'c_si4', dict(length=L, chan_desc=True)))
         for cd in (False, True):
             out.append(('si4-call-site.%struncated.len=%d' % ('chan-desc.' if cd else '', L), 'c_si4', dict(length=L, chan_desc=cd, cut=1)))
+    for L in (1, 2):
+        out.append(('si1-refresh.len=%d' % L, 'c_si1', dict(length=L)))
     # downstream consumer of the hopping list: the SETFH command trxcon composes from it (shared with C05)
     for band, n in ((900, 64), (1800, 8), (1900, 8), (850, 8), (1800, 63), (1800, 64), (1900, 64)):
         out.append(('trxcon.composes.SETFH.band%d.n=%d' % (band, n), 'c_setfh_compose', dict(band=band, n=n)))
@@ -92,6 +94,73 @@ int gsm48_decode_chan_h0(const struct gsm48_chan_desc *cd, uint8_t *tsc, uint16_
 int gsm48_decode_chan_h1(const struct gsm48_chan_desc *cd, uint8_t *tsc, uint8_t *maio, uint8_t *hsn) { return 0; }
 static int gsm48_decode_si4_rest(struct gsm48_sysinfo *s, const uint8_t *si, uint8_t len) { return 0; }
 """
+
+
+SI1_PRE = SI4_PRE + """
+/* the cell channel description decoder is not the subject: it sets the serving-cell flag of the eight window ARFCNs from vf_ca[] */
+static const uint16_t vf_win[8] = { %s };
+uint8_t vf_ca[8];
+static int decode_freq_list(struct gsm_sysinfo_freq *f, const uint8_t *cd, uint8_t len, uint8_t mask, uint8_t frqt)
+{ int i; for (i = 0; i < 8; i++) { if (vf_ca[i]) f[vf_win[i]].mask |= frqt; else f[vf_win[i]].mask &= ~frqt; } return 0; }
+static int gsm48_decode_si1_rest(struct gsm48_sysinfo *s, const uint8_t *si, uint8_t len) { return 0; }
+""" % ', '.join(str(a) for a in WINDOW_Q)
+
+
+def si1_src():
+    """gsm48_decode_sysinfo1() + gsm48_decode_sysinfo4() + gsm48_decode_mobile_alloc() verbatim; cell channel description decoder stubbed"""
+    src = open(SYSINFO_C).read()
+    return SI1_PRE + _extract_fn(src, 'int gsm48_decode_mobile_alloc(') + '\n' + _extract_fn(src, 'int gsm48_decode_sysinfo4(') + '\n' + _extract_fn(src, 'int gsm48_decode_sysinfo1(') + '\n'
+
+
+def c_si1(hid, length, timeout_ms=60000):
+    """SI1 refresh after SI1 + SI4 (CBCH Mobile Allocation): a new SYSTEM INFORMATION 1 with a changed cell allocation leaves the hopping
+    list, its length and the HOPP flags as decoding the stored SI4 bitmap against the NEW cell allocation gives them (old and new
+    membership, stale list and flags, bitmap bits all symbolic)"""
+    import tempfile
+    j = cjob.CJob(hid, timeout_ms)
+    if 'si1' not in _MOD:
+        with tempfile.TemporaryDirectory(prefix='vf_c20t_') as td:
+            pth = os.path.join(td, 'si1.c'); open(pth, 'w').write(si1_src())
+            _MOD['si1'] = llsym.parse_module(llsym.compile_ir(pth, SI4_INCS))
+    M = _MOD['si1']
+    F1 = SI4_F + ['offsetof(struct gsm48_sysinfo, si4)', 'sizeof(((struct gsm48_sysinfo *)0)->si4)', 'sizeof(struct gsm48_system_information_type_1)']
+    o = cjob.offsets(SI4_PRE, F1, SI4_INCS)
+    ssz, foff, fsz, hoff, hloff, si1off, hdr, si1sz, m4off, m4sz, si4off, si4sz, hdr1 = (o[k] for k in F1)
+    if hdr + 2 + length > m4sz: raise core.HarnessError('stored SI4 does not fit')
+    window = WINDOW_Q
+    ex = Exec(M, max_iter=1100)
+    old = {a: j.var(ex, 'ca_old[%d]' % a, 0, 1) for a in window}; new = [j.var(ex, 'ca_new[%d]' % a, 0, 1) for a in window]
+    hp = {a: j.var(ex, 'hopp_pre[%d]' % a, 0, 1) for a in window}
+    hop = [j.var(ex, 'hop_pre[%d]' % k, 0, 65535) for k in range(64)]; hl = j.var(ex, 'hopp_len_pre', 0, 64)
+    bits = [[j.var(ex, 'ma[%d].bit%d' % (i, k), 0, 1) for k in range(8)] for i in range(length)]
+    mab = [llsym.from_bits([b.e for b in bits[i]]) for i in range(length)]
+    sobj = ex.new_obj(ssz, 'sysinfo')
+    cells = {foff + a * fsz: (1, llsym.from_bits([old[a].e, hp[a].e] + [z3.IntVal(0)] * 6)) for a in window}
+    for k in range(64): cells[hoff + 2 * k] = (2, hop[k])
+    cells[hloff] = (1, hl); cells[si1off] = (si1sz, C(1)); cells[si4off] = (si4sz, C(1))
+    stored = [C(0)] * hdr + [C(0x72), C(length)] + mab
+    for k in range(m4sz): cells[m4off + k] = (1, stored[k] if k < len(stored) else C(0))
+    sc = {k: (1, C(0)) for k in range(ssz) if not any(c <= k < c + w[0] for c, w in cells.items())}; sc.update(cells)
+    msg = ex.new_obj(hdr1, 'si1'); mc = {k: (1, C(0)) for k in range(hdr1)}
+    out1 = ex.run('@gsm48_decode_sysinfo1', [Ptr(sobj, C(0)), Ptr(msg, C(0)), C(hdr1)], {sobj: sc, msg: mc, 'g:@vf_ca': {i: (1, new[i]) for i in range(8)}})
+    j.witness(ex, [])
+    j.memory_obligations(ex, [])
+    if j.stats.failures: return j.stats
+    # reference: the stored bitmap decoded against the new cell allocation, stale list/flags as they were
+    ex2 = Exec(M, max_iter=1100); ex2.assumes = ex.assumes
+    freq = ex2.new_obj(1024 * fsz, 'freq'); ma = ex2.new_obj(length, 'ma'); hopo = ex2.new_obj(128, 'hopping'); hlo = ex2.new_obj(1, 'hopp_len')
+    fc = {a * fsz: (1, C(0)) for a in range(1024)}
+    for i, a in enumerate(window): fc[a * fsz] = (1, llsym.from_bits([new[i].e, hp[a].e] + [z3.IntVal(0)] * 6))
+    out2 = ex2.run('@gsm48_decode_mobile_alloc', [Ptr(freq, C(0)), Ptr(ma, C(0)), C(length), Ptr(hopo, C(0)), Ptr(hlo, C(0)), C(1)],
+                   {freq: fc, ma: {i: (1, mab[i]) for i in range(length)}, hopo: {2 * k: (2, hop[k]) for k in range(64)}, hlo: {0: (1, hl)}})
+    s1 = out1.mem[sobj]
+    rd = lambda off, n: ex._read_at(s1, sobj, off, n, False)
+    j.must_hold(ex, 'returns-0', [], out1.ret.e == 0)
+    j.must_hold(ex, 'hopp_len==decode-against-the-new-cell-allocation', [], rd(hloff, 1).e == out2.mem[hlo][0][1].e)
+    for k in range(64): j.must_hold(ex, 'hopping[%d]==decode-against-the-new-cell-allocation' % k, [], rd(hoff + 2 * k, 2).e == out2.mem[hopo][2 * k][1].e)
+    for a in window: j.must_hold(ex, 'freq[%d].mask' % a, [], rd(foff + a * fsz, 1).e == out2.mem[freq][a * fsz][1].e)
+    j.stats.extra['ir_steps'] = ex.steps + ex2.steps
+    return j.stats
 
 
 def si4_src():
@@ -372,6 +441,43 @@ int main(int argc, char **argv) {
 '''
 
 
+SI1_DRV = r"""
+#include <stdio.h>
+#include <stdlib.h>
+int main(int argc, char **argv) {
+  /* argv: len hopp_len_pre (old new hopp)*8 ma* hop_pre*64 */
+  int k = 1; int len = atoi(argv[k++]); int hlp = atoi(argv[k++]);
+  struct gsm48_sysinfo *a = calloc(1, sizeof(*a)), *b = calloc(1, sizeof(*b));
+  for (int i = 0; i < 8; i++) { int o = atoi(argv[k++]); vf_ca[i] = atoi(argv[k++]); int h = atoi(argv[k++]); a->freq[vf_win[i]].mask = o | (h << 1); }
+  uint8_t *d = a->si4_msg + sizeof(struct gsm48_system_information_type_4); d[0] = 0x72; d[1] = len;
+  uint8_t mab[8]; for (int i = 0; i < len; i++) mab[i] = d[2 + i] = atoi(argv[k++]);
+  for (int i = 0; i < 64; i++) a->hopping[i] = atoi(argv[k++]);
+  a->hopp_len = hlp; a->si1 = 1; a->si4 = 1;
+  memcpy(b, a, sizeof(*a));
+  uint8_t *si1 = calloc(1, sizeof(struct gsm48_system_information_type_1));
+  int rc = gsm48_decode_sysinfo1(a, (struct gsm48_system_information_type_1 *)si1, sizeof(struct gsm48_system_information_type_1));
+  decode_freq_list(b->freq, 0, 16, 0xce, FREQ_TYPE_SERV);
+  gsm48_decode_mobile_alloc(b->freq, mab, len, b->hopping, &b->hopp_len, 1);
+  int same = a->hopp_len == b->hopp_len && !memcmp(a->hopping, b->hopping, sizeof(a->hopping)) && !memcmp(a->freq, b->freq, sizeof(a->freq));
+  printf("rc %d hopp_len %d reference %d same %d\n", rc, a->hopp_len, b->hopp_len, same);
+  return 0;
+}
+"""
+
+
+def replay_si1(body):
+    sh = body['shape']; i = body['inputs']; L = sh['length']
+    args = [L, i.get('hopp_len_pre', 0)]
+    for a in WINDOW_Q: args += [i.get('ca_old[%d]' % a, 0), i.get('ca_new[%d]' % a, 0), i.get('hopp_pre[%d]' % a, 0)]
+    args += [sum(i.get('ma[%d].bit%d' % (k, b), 0) << b for b in range(8)) for k in range(L)] + [i.get('hop_pre[%d]' % k, 0) for k in range(64)]
+    rc, out = cjob.run_native(si1_src() + SI1_DRV, None, SI4_INCS, args=args)
+    if rc is None: return 2, out
+    if rc != 0: return 1, 'REPRODUCED on native build (ASan/UBSan): ' + out[-600:]
+    m = re.search(r'rc (-?\d+) hopp_len (\d+) reference (\d+) same (\d+)', out)
+    bad = int(m.group(1)) != 0 or int(m.group(4)) != 1
+    return (1, 'REPRODUCED on native build: SI1 with a changed cell allocation after SI1+SI4: hopping list has %s entries, decoding the stored SI4 bitmap against the new cell allocation gives %s' % (m.group(2), m.group(3))) if bad else (0, 'native agrees: ' + out.strip())
+
+
 def replay_si4(body):
     sh = body['shape']; i = body['inputs']; L = sh['length']
     ca = [(a, i.get('ca[%d]' % a, 0) + 2 * i.get('hopp_pre[%d]' % a, 0)) for a in WINDOW_Q]
@@ -389,6 +495,7 @@ def replay_si4(body):
 def replay(body):
     sh = body['shape']; i = body['inputs']
     if body.get('func') == 'c_si4': return replay_si4(body)
+    if body.get('func') == 'c_si1': return replay_si1(body)
     if body.get('func') == 'c_setfh_compose':
         from . import trxc
         return trxc.replay(body)
